@@ -1,4 +1,4 @@
-CONSTANTS Clients = {1, 2, 3} Services = {"a"} Supported = {"a"} Base = 1 S = 1 MaxFrames = 4 Threaded = TRUE LevelsUsed = {1} Discards = {FALSE} Faulty = {1}
+CONSTANTS Clients = {1, 2} Services = {"a"} Supported = {"a"} Base = 1 S = 1 MaxFrames = 5 Threaded = TRUE LevelsUsed = {1} Discards = {FALSE} Faulty = {1, 2}
 SPECIFICATION Spec
 INVARIANTS TypeOK RefCount CursorOK QueueOrder Buffers Delivery InOrder DeviceOpen CanCapture
 PROPERTIES Filtered LossOnlyWhenFull OnlyBlockedLose OthersKept
